@@ -67,11 +67,16 @@ def r1(tree, rep):
     if ok:
         var = g2.stmt[reads[0]].targets[0]
         ec = [c for c in ast.walk(g2.stmt[enc[0]]) if isinstance(c, ast.Call) and isinstance(c.func, ast.Attribute) and c.func.attr == "encrypt"][0]
+        # the counter is read once (into a once-bound local, possibly through a second one), before the increment, and that
+        # value - rendered as 24 big-endian bytes - is the nonce argument
         ok = isinstance(var, ast.Name) and not g2.precedes(reads, incs) and g2.must_pass(incs) and len(ec.args) == 2 \
-            and isinstance(ec.args[1], ast.Name) and ec.args[1].id == var.id and len(local_defs(sr, var.id)) == 1 \
+            and len(local_defs(sr, var.id)) == 1 \
             and isinstance(ec.args[0], ast.Name) and ec.args[0].id in params(sr) and not local_defs(sr, ec.args[0].id)
-        w = hex_format_width(g2.stmt[reads[0]].value, local_int_env(sr))
-        ok = ok and w is not None and w[0] == 24 and is_self_attr(w[1], "send_nonce")
+        nonce = expand(sr, ec.args[1])
+        uses_var = isinstance(ec.args[1], ast.Name) and (ec.args[1].id == var.id or any(
+            isinstance(x, ast.Name) and x.id == var.id for d in local_defs(sr, ec.args[1].id) if isinstance(d, ast.AST) for x in ast.walk(d)))
+        w = hex_format_width(nonce, local_int_env(sr))
+        ok = ok and uses_var and w is not None and w[0] == 24 and is_self_attr(w[1], "send_nonce")
     rep.check("C06.R1", "send_record: the nonce is the 24-byte big-endian send counter read before its single increment, "
               "and encrypts the record parameter", ok, site(sr, TR), key="C06.R1:send_record:nonce")
 
@@ -157,30 +162,34 @@ def r3(tree, rep):
     env = local_int_env(rd)
     _ei = eval_int
     eval_int_l = lambda e: _ei(e, env)
-    lens = [n for n in ast.walk(rd) if isinstance(n, ast.Assign) and hex_int_of(n.value) is not None]
-    ok = len(lens) == 1 and len(k_guard) == 2
+    # the one big-endian parse of a prefix of the buffer (wherever it is written: bound to a local or used in place)
+    parses = [n for n in ast.walk(rd) if hex_int_of(n) is not None]
+    ok = len(parses) == 1 and len(k_guard) == 2
     if ok:
-        lvar = lens[0].targets[0].id
-        src = slice_bounds(hex_int_of(lens[0].value))
+        src = slice_bounds(expand(rd, hex_int_of(parses[0])))
         ok = src is not None and is_self_attr(src[0], "buf") and src[1] is None
         N = eval_int_l(src[2]) if ok else None
         ok = ok and N is not None
         if ok:
+            def is_len(e):
+                e = expand(rd, e)
+                h = hex_int_of(e)
+                if h is None:
+                    return False
+                sb = slice_bounds(h)
+                return sb is not None and is_self_attr(sb[0], "buf") and sb[1] is None and eval_int_l(sb[2]) == N
+
+            def is_n_plus_len(e):
+                e = expand(rd, e)
+                if not (isinstance(e, ast.BinOp) and isinstance(e.op, ast.Add)):
+                    return False
+                return (eval_int_l(e.left) == N and is_len(e.right)) or (eval_int_l(e.right) == N and is_len(e.left))
             g0 = eval_int_l(k_guard[0])
-            g1 = k_guard[1]
-            if isinstance(g1, ast.Name):
-                g1 = resolve_local(rd, g1)        # end = N + length
-            nplus = g1
-            ok = g0 == N and isinstance(g1, ast.BinOp) and isinstance(g1.op, ast.Add) and eval_int_l(g1.left) == N \
-                and isinstance(g1.right, ast.Name) and g1.right.id == lvar
+            ok = g0 == N and is_n_plus_len(k_guard[1])
             # the slices: record = buf[N:N+length]; buf = buf[N+length:]
             sl = [slice_bounds(x) for x in ast.walk(rd) if isinstance(x, ast.Subscript) and is_self_attr(x.value, "buf") and slice_bounds(x)]
             rec = [s for s in sl if s[1] is not None and s[2] is not None]
             rest = [s for s in sl if s[1] is not None and s[2] is None]
-            def is_n_plus_len(e):
-                if isinstance(e, ast.Name):
-                    e = resolve_local(rd, e)
-                return isinstance(e, ast.BinOp) and isinstance(e.op, ast.Add) and eval_int_l(e.left) == N and isinstance(e.right, ast.Name) and e.right.id == lvar
             ok = ok and len(rec) == 1 and len(rest) == 1 and eval_int_l(rec[0][1]) == N and is_n_plus_len(rec[0][2]) and is_n_plus_len(rest[0][1])
             widths.add(N)
     rep.check("C06.R3", "dataReceivedRECORDS needs N bytes, parses them big-endian, waits for N+length, consumes exactly that", ok,
@@ -235,20 +244,35 @@ def r4(tree, rep):
     ok2 = terminal is not None
     seen_terminal = False
     if ok2:
-        for st in dr.body:
-            if isinstance(st, ast.Assert) or (isinstance(st, ast.AugAssign) and is_self_attr(st.target, "buf")) \
-                    or (isinstance(st, ast.Expr) and isinstance(st.value, ast.Constant)):
-                continue
-            if isinstance(st, ast.If) and isinstance(st.test, ast.Compare) and is_self_attr(st.test.left, "state") \
-                    and len(st.test.ops) == 1 and isinstance(st.test.ops[0], ast.Eq) and isinstance(const(st.test.comparators[0]), str):
-                if const(st.test.comparators[0]) == terminal:
-                    seen_terminal = len(st.body) == 1 and isinstance(st.body[0], ast.Return) and not st.orelse
-                    break
-                # a branch for another state: it must not be enterable from the terminal state, i.e. no earlier
-                # statement may have changed self.state to it; branches only assign state inside their own bodies
-                continue
-            ok2 = False
-            break
+        # every path _dataReceived can take while self.state == <terminal> only buffers, tests and returns
+        gd = build(dr, split=True)
+
+        def oracle(test):
+            if isinstance(test, ast.Compare) and len(test.ops) == 1 and isinstance(test.ops[0], (ast.Eq, ast.NotEq)):
+                l, r = test.left, test.comparators[0]
+                if is_self_attr(r, "state"):
+                    l, r = r, l
+                if is_self_attr(l, "state") and isinstance(const(r), str):
+                    return (const(r) == terminal) == isinstance(test.ops[0], ast.Eq)
+            if isinstance(test, ast.Call) and dotted(test.func) == "isinstance" and len(test.args) == 2 and is_self_attr(test.args[0], "state"):
+                return False            # the terminal state is a string
+            return None
+        paths = gd.paths_under(oracle)
+        seen_terminal = bool(paths)
+        for nodes, end in paths:
+            ok2 = ok2 and end == 'exit'
+            for n in nodes:
+                st = gd.stmt[n]
+                test = st[1] if isinstance(st, tuple) and st[0] == "COND" else (st.test if isinstance(st, ast.If) and not gd._is_compound_test(st.test) else None)
+                if test is not None and any(isinstance(x, ast.Call) and dotted(x.func) not in ("isinstance", "len") for x in ast.walk(test)):
+                    ok2 = False         # a test that does something (consumes bytes, ..) is evaluated in the terminal state
+                harmless = isinstance(st, (str, tuple, ast.If, ast.Assert, ast.Pass)) \
+                    or (isinstance(st, ast.AugAssign) and is_self_attr(st.target, "buf") and not any(isinstance(x, ast.Call) for x in ast.walk(st.value))) \
+                    or (isinstance(st, ast.Expr) and isinstance(st.value, ast.Constant)) \
+                    or (isinstance(st, ast.Return) and (st.value is None or const(st.value) is None and isinstance(st.value, ast.Constant))) \
+                    or (isinstance(st, ast.Assign) and len(st.targets) == 1 and isinstance(st.targets[0], ast.Name)
+                        and not any(isinstance(x, ast.Call) for x in ast.walk(st.value)))
+                ok2 = ok2 and harmless
     rep.check("C06.R4", "_dataReceived: in the terminal state it returns before handling any record", ok2 and seen_terminal, site(dr, TR),
               key="C06.R4:_dataReceived:terminal-return")
     # no branch can leave the terminal state: state is assigned the terminal value only, or by branches guarded on other states
